@@ -56,6 +56,17 @@ pub fn prov(span: Span) -> J {
         let ed = sp.ctxt().outer_expn_data();
         match ed.kind {
             rustc_span::ExpnKind::Macro(kind, name) => {
+                // a `macro_rules!` written by hand in this crate is the crate's own code: what it expands to is read like
+                // any other hand-written item (macros that are themselves generated, e.g. delog's log macros, are not)
+                if matches!(kind, rustc_span::MacroKind::Bang) {
+                    if let Some(did) = ed.macro_def_id {
+                        if did.is_local() && ty::tls::with(|tcx| !tcx.def_span(did).from_expansion()) {
+                            sp = ed.call_site;
+                            guard += 1;
+                            continue;
+                        }
+                    }
+                }
                 let k = match kind {
                     rustc_span::MacroKind::Bang => "bang",
                     rustc_span::MacroKind::Attr => "attr",
